@@ -19,6 +19,7 @@ func init() {
 			{ID: "C20.R4", Floor: 2, Run: c10u2, Text: "strict add/remove (= C10.U2): slot writes are dominated by the slot's nil test with panic on the other edge"},
 			{ID: "C20.R5", Floor: 2, Run: c20r5, Text: "Get returns and Has tests the slot resources[id.id] of the same id parameter"},
 			{ID: "C20.R6", Floor: 1, Run: c20r6, Text: "reset clears every slot (= C15.R5 for Resources)"},
+			{ID: "C20.R7", Floor: 1, Run: c20r7, Text: "resource ids survive Reset (= C15.R1 keep rule): World.Reset's mod-set does not contain Resources.registry"},
 		},
 	})
 }
@@ -177,6 +178,21 @@ func c20r6(p *Prog, r *Reporter) {
 	c15r5(p, tmp)
 	for _, o := range tmp.obs {
 		if strings.Contains(o.Func, "Resources") {
+			r.add(o.Func, o.Construct, o.Pos, o.Status, o.Detail, o.Nontrivial)
+		}
+	}
+}
+
+func c20r7(p *Prog, r *Reporter) {
+	reset := p.Fn("ecs.(*World).Reset")
+	if reset == nil {
+		r.Anchor("ecs.(*World).Reset")
+		return
+	}
+	tmp := &Reporter{p: p, rule: r.rule}
+	c15r1keep(p, tmp, p.Mod(reset).Paths())
+	for _, o := range tmp.obs {
+		if strings.Contains(o.Construct, "Resources.registry") || o.Status == "anchor-unresolved" {
 			r.add(o.Func, o.Construct, o.Pos, o.Status, o.Detail, o.Nontrivial)
 		}
 	}
